@@ -172,7 +172,8 @@ def handleAll (c : Case) : Res := Id.run do
   let eps := epsOf c
   let w := if c.isComplex then 2 else 1
   let tags0 := [s!"ty={c.ty}", s!"cls={c.p "cls"}", s!"stor={c.p "stor"}", s!"mode={c.p "mode"}", s!"colperm={c.p "colperm"}", s!"symm={c.p "symm"}",
-                s!"len={nsteps}", if (c.int "tuning").getD 6 0 ≠ 0 ∧ (c.int "tuning").getD 6 0 < 4 then "fill-small" else "fill-normal"]
+                s!"len={nsteps}", if (c.int "tuning").getD 6 0 ≠ 0 ∧ (c.int "tuning").getD 6 0 < 4 then "fill-small" else "fill-normal"] ++
+                (if c.p "zeroed_pivot" "0" == "1" then ["zeroed-remembered-pivot"] else [])
   let mut held : Option Held := none
   let mut ms : DriverState Q Rat := Slu.History.init
   let mut allExact := true
